@@ -6,6 +6,26 @@ VERIF = os.path.dirname(os.path.abspath(__file__))
 
 # property id -> (level category, technique, level text, level note, design ref)
 CLAIMED = {
+    "C15": ("exploration",
+            "runtime oracle over generated frames (round-trip, injectivity set, header prefix-freeness) + channel-tagged ledger on real Mux/AskMux instances",
+            "Runs the real framing functions of all five multiplexer kinds on generated and engineered near-collision (channel,payload) pairs, and drives real muxes over memswarm with confusable channel sets where every payload names its channel; held = no mismatch, collision or cross-channel delivery observed.",
+            "Framing functions reached through verif-tagged exports; e2e part uses memswarm as transport; tells may be lost (not judged).",
+            "DESIGN.md §4 C15"),
+    "C16": ("exploration",
+            "runtime round-trip oracle over generated and hostile address texts for every address type path",
+            "Marshals and re-parses generated addresses of every address type and nesting (depth 3) with the same swarm's parser and feeds mutated/hostile texts; held = every produced address parsed back equal and every accepted hostile text was stable.",
+            "Scheme names restricted to the scheme://inner grammar; equality is reflect.DeepEqual plus equal re-marshalled text.",
+            "DESIGN.md §4 C16"),
+    "C18": ("exploration",
+            "reference-model monitor after every operation (bounded exhaustive BFS + long random sequences) + porcupine linearizability of concurrent histories",
+            "Every cache operation is mirrored on a reference map; Count, invariant walker, full enumeration, lookups, added/evicted reports and the eviction bucket are compared after every operation, exhaustively over short sequences on a small universe and randomly over long ones; thorough adds concurrent histories checked with porcupine.",
+            "Delete's result for absent keys and the choice inside the eviction bucket are not asserted; VerifCheck runs under the cache's own lock (verif tag).",
+            "DESIGN.md §4 C18"),
+    "C19": ("exploration",
+            "brute-force distance oracle over cache states and query keys; exhaustive comparison laws for short strings",
+            "ForEach/Closest/ForEachCloser/ForEachMatching/ListNodeInfos/Handle*.Closer are compared with a brute-force sort by bytes.Compare(Distance()) on every BFS state and on random states; DistanceCmp laws are checked exhaustively for strings of length <=1 and on random longer strings.",
+            "Ordering asserted for entry keys at least as long as the locus; ties in any order.",
+            "DESIGN.md §4 C19"),
     "C17": ("exploration",
             "runtime oracle over generated keys / peer-id texts (round-trip, equality-vs-encoding, fingerprint agreement)",
             "Executes the real marshal/parse/equality/fingerprint/peer-id code on millions of generated keys, near-miss pairs and hostile texts and compares against reference predicates; held = no disagreement on what was generated.",
